@@ -54,13 +54,29 @@ theorem clock_other (cfg : Cfg) (c : Core) (inc : Int) :
 
 /-! ## Read phase and interpreter phase -/
 
-/-- `set_error_state` touches no clock, no run id, not `started`; System State becomes Paused -/
+/-- `set_error_state` touches no clock, no run id, not `started`; System State becomes Paused (or stays, when
+    no run is active and the error-while-idle repair is in) -/
 theorem setError_frame (cfg : Cfg) (c : Core) :
     (c.setError cfg).pt = c.pt ∧ (c.setError cfg).rt = c.rt ∧ (c.setError cfg).runId = c.runId ∧
     (c.setError cfg).nextRunId = c.nextRunId ∧ (c.setError cfg).started = c.started ∧
-    (c.setError cfg).sys = .paused ∧ (c.setError cfg).blocks = c.blocks ∧
+    ((c.setError cfg).sys = c.sys ∨ (c.setError cfg).sys = .paused) ∧ (c.setError cfg).blocks = c.blocks ∧
     (c.setError cfg).scopeT = c.scopeT ∧ (c.setError cfg).scopeS = c.scopeS := by
-  unfold Core.setError; split <;> simp
+  unfold Core.setError; split
+  · simp
+  · split <;> simp
+
+/-- the Pause body and the bookkeeping of a user request touch no clock and no run id -/
+theorem pause_frame (cfg : Cfg) (c : Core) :
+    (c.pause cfg).pt = c.pt ∧ (c.pause cfg).rt = c.rt ∧ (c.pause cfg).runId = c.runId ∧
+    (c.pause cfg).nextRunId = c.nextRunId ∧ (c.pause cfg).blocks = c.blocks ∧
+    (c.pause cfg).scopeT = c.scopeT ∧ (c.pause cfg).scopeS = c.scopeS := by
+  unfold Core.pause; split <;> simp
+
+theorem userRequest_frame (i : Nat) (c : Core) :
+    (c.userRequest i).pt = c.pt ∧ (c.userRequest i).rt = c.rt ∧ (c.userRequest i).runId = c.runId ∧
+    (c.userRequest i).nextRunId = c.nextRunId ∧ (c.userRequest i).blocks = c.blocks ∧
+    (c.userRequest i).scopeT = c.scopeT ∧ (c.userRequest i).scopeS = c.scopeS := by
+  unfold Core.userRequest; split <;> simp
 
 theorem interpItems_keep (items : List Item) (s : State) :
     let c := (items.foldl interpItem s).core
@@ -131,13 +147,16 @@ theorem tickPre_keeps (cfg : Cfg) (s : State) (t : TickIn) :
       obtain ⟨b1, b2, b3, b4, b5, b6⟩ := h
       split
       · have f := setError_frame cfg (t.items.foldl interpItem s1).core
-        exact ⟨(f.1.trans b1).trans a1, (f.2.1.trans b2).trans a2, (f.2.2.1.trans b3).trans a3,
-          (f.2.2.2.1.trans b4).trans a4, (f.2.2.2.2.1.trans b5).trans a5, Or.inr f.2.2.2.2.2.1⟩
+        refine ⟨(f.1.trans b1).trans a1, (f.2.1.trans b2).trans a2, (f.2.2.1.trans b3).trans a3,
+          (f.2.2.2.1.trans b4).trans a4, (f.2.2.2.2.1.trans b5).trans a5, ?_⟩
+        rcases f.2.2.2.2.2.1 with h | h
+        · rw [h, b6]; exact a6
+        · exact Or.inr h
       · exact ⟨b1.trans a1, b2.trans a2, b3.trans a3, b4.trans a4, b5.trans a5, by rw [b6]; exact a6⟩
     · exact ⟨a1, a2, a3, a4, a5, a6⟩
   split
   · have f := setError_frame cfg s.core
-    exact key _ ⟨f.1, f.2.1, f.2.2.1, f.2.2.2.1, f.2.2.2.2.1, Or.inr f.2.2.2.2.2.1⟩
+    exact key _ ⟨f.1, f.2.1, f.2.2.1, f.2.2.2.1, f.2.2.2.2.1, f.2.2.2.2.2.1⟩
   · exact key _ ⟨rfl, rfl, rfl, rfl, rfl, Or.inl rfl⟩
 
 theorem tickPre_timers (cfg : Cfg) (s : State) (t : TickIn) (h : ∀ it ∈ t.items, noEv it = true) :
@@ -200,6 +219,18 @@ theorem post_step (cfg : Cfg) (pm : Perm) (hk : pm.clk = false) (hv : pm.ev = fa
       by simp only [Act.apply]; rw [f.2.2.2.2.2.2.1]; exact h3,
       by simp only [Act.apply]; rw [f.2.2.2.2.2.2.2.1]; exact h4,
       by simp only [Act.apply]; rw [f.2.2.2.2.2.2.2.2]; exact h5⟩
+  case pause =>
+    have f := pause_frame cfg a.core
+    exact ⟨by simp only [Act.apply]; rw [f.1]; exact h1, by simp only [Act.apply]; rw [f.2.1]; exact h2,
+      by simp only [Act.apply]; rw [f.2.2.2.2.1]; exact h3,
+      by simp only [Act.apply]; rw [f.2.2.2.2.2.1]; exact h4,
+      by simp only [Act.apply]; rw [f.2.2.2.2.2.2]; exact h5⟩
+  case userReq i =>
+    have f := userRequest_frame i a.core
+    exact ⟨by simp only [Act.apply]; rw [f.1]; exact h1, by simp only [Act.apply]; rw [f.2.1]; exact h2,
+      by simp only [Act.apply]; rw [f.2.2.2.2.1]; exact h3,
+      by simp only [Act.apply]; rw [f.2.2.2.2.2.1]; exact h4,
+      by simp only [Act.apply]; rw [f.2.2.2.2.2.2]; exact h5⟩
   all_goals exact ⟨h1, h2, h3, h4, h5⟩
 
 theorem post_of_tick (cfg : Cfg) (s : State) (t : TickIn) :
@@ -380,6 +411,14 @@ theorem zeroRel_step (cfg : Cfg) (hc : cfg.clocks = true) (pm : Perm) (hk : pm.c
     have f := setError_frame cfg a.core
     simp only [ZeroRel, Act.apply] at h ⊢
     rw [f.1, f.2.1, f.2.2.1]; exact h
+  case pause =>
+    have f := pause_frame cfg a.core
+    simp only [ZeroRel, Act.apply] at h ⊢
+    rw [f.1, f.2.1, f.2.2.1]; exact h
+  case userReq i =>
+    have f := userRequest_frame i a.core
+    simp only [ZeroRel, Act.apply] at h ⊢
+    rw [f.1, f.2.1, f.2.2.1]; exact h
   all_goals exact h
 
 /-- **Process Time and Run Time are zero when a run starts**: whenever an operation leaves the engine with
@@ -435,6 +474,14 @@ theorem monoRel_step (cfg : Cfg) (pm : Perm) (hk : pm.clk = false) (r : Nat) (p 
   case clock inc => simp [Act.enabled, hk] at hen
   case error =>
     have f := setError_frame cfg a.core
+    simp only [MonoRel, Act.apply]
+    rw [f.1, f.2.1, f.2.2.1, f.2.2.2.1]; exact ⟨h1, h2⟩
+  case pause =>
+    have f := pause_frame cfg a.core
+    simp only [MonoRel, Act.apply]
+    rw [f.1, f.2.1, f.2.2.1, f.2.2.2.1]; exact ⟨h1, h2⟩
+  case userReq i =>
+    have f := userRequest_frame i a.core
     simp only [MonoRel, Act.apply]
     rw [f.1, f.2.1, f.2.2.1, f.2.2.2.1]; exact ⟨h1, h2⟩
   all_goals exact ⟨h1, h2⟩
